@@ -182,6 +182,9 @@ def run_unit(uname, tier, prop):
     for fn, h in uf.skeletons.items():
         if fn in recorded and recorded[fn] != h:
             R.skeleton_changed.append(fn)
+    for fn in uf.unspecified_loops:
+        if fn not in R.skeleton_changed:
+            R.skeleton_changed.append(fn)
     return R
 
 
